@@ -241,6 +241,33 @@ def r4_parallel(ctx):
             why += " <- " + expr_str(ex)
         opt = [(g2, t2) for g2 in reach for b2, t2 in g2.body.calls() if t2["f"].get("key") == "mahf::configuration::Configuration::optimize_with"]
         good = good and len(opt) == 1
+        if good:
+            # ... and that item is a RUN NUMBER: the iteration the item closure is applied to ranges over `0..runs`, `runs` a plain
+            # parameter of par_experiment (not a job index over runs x problems), and where that range is one side of a product
+            # of runs and problems, the seed is the side that came from it
+            item_clo = cur
+            sites = [(g2, t2) for g2 in reach for _b2, t2 in g2.body.calls()
+                     if any(strip(g2.body.expr_of_op(a))[:2] == ("agg", "closure") and strip(g2.body.expr_of_op(a))[2] == item_clo.key for a in t2["args"][1:])]
+            ranges = []
+            for (g2, t2) in sites[:1]:
+                recv = g2.body.expr_of_op(t2["args"][0])
+                for x in subexprs(recv):
+                    if x[0] == "agg" and len(x) > 4 and x[1] == "adt" and str(x[2]).startswith("core::ops::range::Range"):
+                        ends = x[4][1:2]
+                        ranges.append((x, ends[0] if ends else None))
+                prod = [x for x in subexprs(recv) if x[0] == "call" and str(x[1]).endswith("cartesian_product")]
+            plain = [r for r in ranges if r[1] is not None and strip(r[1])[0] == "arg"]
+            if len(sites) != 1 or len(ranges) != 1 or len(plain) != 1:
+                good = False
+                why += "; the runs are not enumerated by one range `0..<parameter>` (%s)" % [expr_str(r[0])[:80] for r in ranges]
+            elif prod:
+                side = next((i for i, a in enumerate(prod[0][2]) if any(y is plain[0][0] or y == plain[0][0] for y in subexprs(a))), None)
+                want_field = side
+                got_field = fields[0] if fields else None
+                got_idx = got_field[1] if isinstance(got_field, (list, tuple)) and len(got_field) > 1 else got_field
+                if side is None or got_idx != want_field:
+                    good = False
+                    why += "; the seed is component %s of the (run, problem) item, the run number is component %s" % (got_idx, side)
     ctx.check(good, "C08.R4", pe.key, "seed-is-run-number", "par_experiment does not seed each run's fresh state with Random::new(<run number of the work item>): %s" % why, detail=why[:200], loc=pe.loc())
     # a generator supplied by the user's setup hook is never replaced: no insertion of a Random is reachable after the hook ran
     hooks = 0
